@@ -887,6 +887,19 @@ def streams(rng, tier):
         if l not in seen and not too_big(l):
             seen.add(l)
             mal.append(l)
+    # every entry point with an operand on the other device / an invalid operand
+    for op in FW1 + BW + MULTI + ["reset", "reset_vector"]:
+        for _ in range(6 if quick else 40):
+            w = gen_valid(rng, op).split()
+            tpos = [i for i, t in enumerate(w) if TOK_RE.match(t)]
+            if not tpos:
+                continue
+            i = rng.choice(tpos)
+            w[i] = "O" + w[i][1:] if rng.random() < 0.75 else "I"
+            l = " ".join(w)
+            if l not in seen and not too_big(l):
+                seen.add(l)
+                mal.append(l)
     # defect #4 (pinned tree): the 32-bit sums of the two guards
     mal += ["slice_bw T:2/1:1,1 T:4/1:0,0,0,0 0 4294967295",
             "batch_slice_bw T:/2:1,1 T:/4:0,0,0,0 4294967295",
